@@ -15,7 +15,7 @@ def fam_C09(tier, seed):
     shapes = {"F1": ("F", dict(dur=1)), "F2": ("F", dict(dur=2)), "Z": ("Z", {}), "V": ("V", dict(min=0, max=2))}
     # one buffer, 2-3 accessing tasks, every bound combination
     for conc, init, final, (lo, hi), ops in itertools.product(
-            (False, True), (None, 0, 2), (None, 0, 2), [(None, None), (0, None), (None, 3), (0, 3), (0, 2)],
+            (False, True), (None, 0, 2), (None, 0, 2), [(None, None), (0, None), (None, 3), (0, 3), (0, 2), (None, 0), (-1, 1)],
             [(("F1", "u", 1), ("F2", "l", 1)),
              (("F1", "u", 1), ("F1", "u", 1), ("F2", "l", 2)),
              (("Z", "l", 1), ("F1", "u", 2)),
@@ -40,6 +40,17 @@ def fam_C09(tier, seed):
         b.load(a, b2, 1)
         b.unload(c, b1, 1)
         b.load(c, b2, 1)
+        ps.append(b.done())
+    # optional loaders / unloaders, both buffer kinds (an unscheduled task does not move the level)
+    for conc, (oa, oc), lo in itertools.product((False, True), [(True, False), (False, True), (True, True)], (None, 0)):
+        b = PB(3, tag="optional-access")
+        bf = b.buffer("Bf", concurrent=conc, initial=1, lower=lo, upper=3)
+        a = b.task("A", "F", dur=1, optional=oa)
+        c = b.task("B", "Z", optional=oc)
+        d = b.task("C", "F", dur=1)
+        b.unload(a, bf, 1)
+        b.load(c, bf, 2)
+        b.load(d, bf, 1)
         ps.append(b.done())
     # with a worker and an optional task
     for conc, opt in itertools.product((False, True), (False, True)):
